@@ -54,6 +54,7 @@ VARIABLES pcs, op, ncalls, mutex, closed, done, out, res, closeCalled, closeRetu
 vars == <<pcs, op, ncalls, mutex, closed, done, out, res, closeCalled, closeReturned, startedAfterClose, cancelled,
           wpc, msgs, published, restarts, subCancelled, watchCancelled, watchDone>>
 wvars == <<wpc, msgs, published, restarts>>
+PsDead == published = MaxMsgs + 1        \* the application has shut its pubsub down (PsStop, below)
 
 Init == /\ pcs = [t \in Threads |-> "idle"] /\ op = [t \in Threads |-> "none"] /\ ncalls = [t \in Threads |-> 0]
         /\ mutex = 0 /\ closed = FALSE /\ done = FALSE /\ out = 0
@@ -95,7 +96,7 @@ C1(t) == /\ pcs[t] = "c1" /\ Same
             THEN /\ mutex' = IF FIXED /\ UNLOCK = "code" THEN 0 ELSE mutex    \* pinned: returns with the mutex held
                  /\ Goto(t, "cret") /\ UNCHANGED <<closed, subCancelled>>
             ELSE /\ closed' = TRUE
-                 /\ IF Watcher THEN subCancelled' = TRUE /\ Goto(t, "c2") /\ UNCHANGED mutex          \* topicSub.Cancel()
+                 /\ IF Watcher THEN subCancelled' = ~PsDead /\ Goto(t, "c2") /\ UNCHANGED mutex        \* topicSub.Cancel(): without effect once the pubsub is gone
                     ELSE /\ mutex' = (IF UNLOCK = "code" THEN 0 ELSE mutex) /\ Goto(t, "c3") /\ UNCHANGED subCancelled
          /\ UNCHANGED <<done, out, wvars, watchCancelled, watchDone>>
 C2(t) == /\ pcs[t] = "c2" /\ mutex' = (IF UNLOCK = "code" THEN 0 ELSE mutex) /\ Goto(t, "c3") /\ Same
@@ -166,14 +167,14 @@ Publish == /\ Watcher /\ ~Resend /\ published < MaxMsgs /\ published' = publishe
            /\ UNCHANGED <<mutex, closed, done, out, wpc, restarts, subCancelled, watchCancelled, watchDone>>
 (* The topic is the application's (WithTopic) and the application shuts its pubsub down: nothing is delivered any more, and
    cancelling the subscription no longer wakes the watcher -- only its own context does.  published = MaxMsgs + 1 stands for that. *)
-PsDead == published = MaxMsgs + 1
 PsStop == /\ Watcher /\ ~Resend /\ ~PsDead /\ msgs = 0 /\ published' = MaxMsgs + 1 /\ TU
           /\ UNCHANGED <<mutex, closed, done, out, wpc, msgs, restarts, subCancelled, watchCancelled, watchDone>>
 WLoop == /\ wpc \in {"loop", "gotno", "dup", "sent"} /\ WGoto("next") /\ TU       \* gotno: undecodable, re-published by this host, or peer not allowed
          /\ UNCHANGED <<mutex, closed, done, out, msgs, published, restarts, subCancelled, watchCancelled, watchDone>>
 WMsg == /\ wpc = "next" /\ msgs > 0 /\ msgs' = msgs - 1 /\ (WGoto("got") \/ WGoto("gotno")) /\ TU     \* from an allowed peer, or not
         /\ UNCHANGED <<mutex, closed, done, out, published, restarts, subCancelled, watchCancelled, watchDone>>
-WNextExit == /\ wpc = "next" /\ ((subCancelled /\ ~PsDead) \/ watchCancelled) /\ WGoto("done") /\ watchDone' = TRUE /\ TU
+(* a cancellation made while the pubsub was alive may still wake the watcher after the pubsub has gone *)
+WNextExit == /\ wpc = "next" /\ (subCancelled \/ watchCancelled) /\ WGoto("done") /\ watchDone' = TRUE /\ TU
              /\ UNCHANGED <<mutex, closed, done, out, msgs, published, restarts, subCancelled, watchCancelled>>
 WErr == /\ wpc = "next" /\ restarts < MaxRestarts /\ restarts' = restarts + 1 /\ WGoto("r1") /\ TU
         /\ UNCHANGED <<mutex, closed, done, out, msgs, published, subCancelled, watchCancelled, watchDone>>
